@@ -39,6 +39,7 @@ def plan(tier, seed):
                 jobs.append({"k": "enum", "p": pi, "len": (L, L), "first": first})
     for i in range(16 if tier == "quick" else 400):
         jobs.append({"k": "rand", "i": i, "seed": seed})
+    jobs.append({"k": "nested", "seed": seed})
     for bi in range(len(BIG_PATTERNS)):
         jobs.append({"k": "big", "p": bi})
     return jobs
@@ -53,6 +54,9 @@ def model(b):
 
 def _sets(b, exp):
     return {"pattern": [dict(b.attrs)["line-pattern"]], "verdict": ["violation" if exp else "all-match"]}
+
+
+ATTRS_NESTED = [[("line-pattern", "^[a-z#]")], [("line-pattern", "^# <block|^[a-z]+$")], [("line-pattern", "^[a-z]+$")]]
 
 
 def run_job(job, ctx):
@@ -95,6 +99,19 @@ def run_job(job, ctx):
         pat = BIG_PATTERNS[job["p"]]
         blocks = [vbatch.BBlock([("line-pattern", pat)], list(seq)) for L in (1, 2) for seq in itertools.product(ALPHA[:8], repeat=L)]
         for c in vbatch.run_batch(ctx, blocks, "hash", "line-pattern", model, sig_prefix="C08", sets_fn=_sets):
+            acc.add(c)
+    elif job["k"] == "nested":
+        # nested blocks: the inner blocks' tag lines are ordinary lines (keys) of the outer block, and each inner block is
+        # judged on its own content
+        import itertools as _it
+        blocks = []
+        k = 0
+        for attrs in ATTRS_NESTED:
+            for pre, inner, post in _it.product([[], ["a"], ["z"], ["b", "a"]], [["m"], ["a", "a"], []], [[], ["a"], ["zz"]]):
+                lines = list(pre) + ['# <block name="in' + str(k) + '">'] + list(inner) + ["# </block>"] + list(post)
+                k += 1
+                blocks.append(vbatch.BBlock(list(attrs), lines))
+        for c in vbatch.run_batch(ctx, blocks, "hash", "line-pattern", model, sig_prefix="C08", prefix="outer", sets_fn=_sets):
             acc.add(c)
     else:
         r = rng("c08", job["seed"], job["i"])
